@@ -7,9 +7,11 @@
        get_grammar_hash (emitted text) = Some digest;
      - the three clauses of get_grammar_hash's specification on complete lines: a hash line yields
        its remainder (prefix stripped once), other // lines are skipped, any other line gives None.
+   And for the whole generator: whatever `generate` emits for a source and a digest (without line
+   breaks), get_grammar_hash of that text is that digest (C15_generate_roundtrip).
    That the digest is SHA-256 of the exact source is checked against hashlib on every case. *)
 From Coq Require Import List NArith.
-From Kiki Require Import Base.Ord Base.Chars Data Emit.Emit Emit.Hash Emit.HashProofs.
+From Kiki Require Import Base.Ord Base.Chars Data Emit.Emit Emit.Hash Emit.HashProofs Pipeline PipelineProofs.
 From Kiki Require Gen.Template.
 
 Theorem C15_roundtrip : forall env text d,
@@ -30,7 +32,12 @@ Theorem C15_non_comment_line_ends_the_header : forall l rest, no_line_break l ->
   starts_with (s2l "//") l = false -> get_grammar_hash (l ++ 10%N :: rest) = None.
 Proof. exact non_comment_line_stops. Qed.
 
+Theorem C15_generate_roundtrip : forall ho digest src text,
+  generate_model ho digest src = Ok text -> no_line_break digest -> get_grammar_hash text = Some digest.
+Proof. exact generate_hash_roundtrip. Qed.
+
 Print Assumptions C15_roundtrip.
+Print Assumptions C15_generate_roundtrip.
 Print Assumptions C15_hash_line.
 Print Assumptions C15_other_comment_lines_are_skipped.
 Print Assumptions C15_non_comment_line_ends_the_header.
